@@ -1337,7 +1337,15 @@ XPathProcessorImpl::UnaryExpr()
         isNeg = true;
     }
 
-    UnionExpr();
+    if(isNeg == true)
+    {
+        // UnaryExpr ::= UnionExpr | '-' UnaryExpr
+        UnaryExpr();
+    }
+    else
+    {
+        UnionExpr();
+    }
 
     if(isNeg == true)
     {
